@@ -17,6 +17,10 @@ ProgsLit == <<
    threads |-> << <<I(4), O("get", 4, 0, 0)>>, <<O("rem", 2, 0, 0), O("get", 2, 0, 0)>> >>],
   [name |-> "evict_evict", init |-> Three, high |-> 700, low |-> 300,
    threads |-> << <<O("evict", 0, 0, 0)>>, <<O("evict", 0, 0, 0), O("get", 2, 0, 0)>> >>],
+  [name |-> "clear_ins", init |-> Three, high |-> 1048576, low |-> 524288,
+   threads |-> << <<O("clear", 0, 0, 0), O("get", 1, 0, 0)>>, <<I(4), O("get", 4, 0, 0)>> >>],
+  [name |-> "clear_rm", init |-> Three, high |-> 1048576, low |-> 524288,
+   threads |-> << <<O("clear", 0, 0, 0)>>, <<O("rem", 2, 0, 0), O("get", 2, 0, 0)>> >>],
   [name |-> "rm_ins_ev", init |-> Three, high |-> 700, low |-> 300,
    threads |-> << <<O("rem", 1, 0, 0), O("get", 1, 0, 0)>>, <<I(4), O("get", 4, 0, 0)>>, <<O("evict", 0, 0, 0)>> >>]
 >>
